@@ -1,8 +1,10 @@
 SPECIFICATION Spec
 CONSTANTS
   H = 32
+  NBufs = 2
+  Design = "own"
   MaxBlocks = 255
   ReadSizes = {0, 1, 31, 32, 33, 65, 4067, 8128, 8158, 8159, 8160, 8161}
-INVARIANTS TypeOK ImplInv
-PROPERTIES Refines AbsErrorConsumesNothing AbsContiguous AbsFailsExactlyBeyondLimit AbsZeroReadIsNoop
+INVARIANTS TypeOK ImplInv ReaderOwnsItsState
+PROPERTIES Refines AbsErrorConsumesNothing AbsContiguous AbsFailsExactlyBeyondLimit AbsZeroReadIsNoop AbsScribbleIsInvisible ScribbleKeepsReaderState
 CHECK_DEADLOCK FALSE
